@@ -50,7 +50,9 @@ DEFECTS = {
     'missing_home_file': [('copy nofile.txt', ALLP), ('% p -existing-file nofile.txt', ALLP),
                           ('file f.txt = -contents-of -rel-home nofile', ALLP), ('run nofile-exe', ALLP),
                           ('stdin = -contents-of nofile.txt', ('setup',)),
-                          ('run -python -existing-file nofile.py', ALLP)],
+                          ('run -python -existing-file nofile.py', ALLP),
+                          ('copy -rel-act-home nofile.txt', ALLP), ('% p -existing-file -rel-act-home nofile.txt', ALLP),
+                          ('run -rel-act-home nofile-exe', ALLP)],
     # a missing file named by an absolute path (literally, or through a path symbol with an absolute value): it does not
     # depend on the sandbox, and is checked before execution just like a missing file in a home directory
     'missing_file_absolute_path': [('copy /no/such/dir/file.txt', ALLP), ('run /no/such/dir/prog', ALLP),
